@@ -158,3 +158,7 @@ impl<TS: TimeSource> ClaimTable<TS> {
 }
 
 // TODO: test
+
+#[cfg(vpncloud_verif)]
+#[path = "/verif/harness/hooks/table.rs"]
+pub mod verif;
